@@ -448,7 +448,7 @@ func (r *walletRig) mine(n int) {
 
 func newWalletRig(e *sim.Env, regimes []string) *walletRig {
 	now := time.Now()
-	net := gen.NewNet(e, now, gen.NetOpts{MaxHeight: 120, Regime: regimes[e.Intn(len(regimes))], AllowLo: 2, AllowHi: 4})
+	net := gen.NewNet(e, now, gen.NetOpts{MaxHeight: 120, Regime: regimes[e.Intn(len(regimes))], AllowLo: 2, AllowHi: 16})
 	r := &walletRig{e: e, net: net, tree: gen.NewTree(net), me: net.Actors[0], now: now}
 	r.s = newChainSUT(e, net, simdisk.New())
 	r.st, r.sy = newWalletStore(), &recSyncer{}
@@ -622,10 +622,7 @@ func runC07(e *sim.Env) {
 					r.release(inputIDs(t))
 				}
 			}
-		case 3: // split
-			if !v2ok {
-				continue
-			}
+		case 3: // split (also below the v2 allow height, where the pool refuses it)
 			sp, _ := r.modelSpendable()
 			n := e.Range(2, 12)
 			min := sp.Div64(uint64(n * e.Range(2, 6)))
@@ -633,13 +630,25 @@ func runC07(e *sim.Env) {
 				continue
 			}
 			poolBefore, resBefore := r.poolSpent(), r.reserved()
+			var balBefore wallet.Balance
+			e.Guard("C07.panic", "Balance", func() { balBefore, _ = r.w.Balance() })
 			var txn types.V2Transaction
 			var err error
 			e.Guard("C07.panic", "SplitUTXO", func() { txn, err = r.w.SplitUTXO(n, min) })
-			e.Logf("%s SplitUTXO(%d, %v) -> %d inputs err=%v", label, n, min, len(txn.SiacoinInputs), err)
-			e.Shape("split", fmt.Sprint(err != nil), fmt.Sprint(len(txn.SiacoinInputs) > 0))
-			if err != nil || len(txn.SiacoinInputs) == 0 {
-				continue
+			e.Logf("%s SplitUTXO(%d, %v) (v2 allowed: %v) -> %d inputs err=%v", label, n, min, v2ok, len(txn.SiacoinInputs), err)
+			e.Shape("split", fmt.Sprint(err != nil), fmt.Sprint(len(txn.SiacoinInputs) > 0), fmt.Sprint(v2ok))
+			if err != nil {
+				// a failed request reserves nothing
+				var bal wallet.Balance
+				e.Guard("C07.panic", "Balance", func() { bal, _ = r.w.Balance() })
+				if bal != balBefore {
+					e.Violationf("C07.failed-reserves-nothing", "split:balance-changed", "%s: a failed SplitUTXO (%v) changed the balance %+v -> %+v", label, err, balBefore, bal)
+				}
+				e.Probe("split_failed")
+				break
+			}
+			if len(txn.SiacoinInputs) == 0 {
+				break
 			}
 			var ins []types.SiacoinElement
 			var outSum types.Currency
